@@ -386,7 +386,10 @@ def build4(m):
         },
         call_asserts={'mistletoe.block_tokenizer:tokenize_block': [
             # C13 hand-off: the nested tokenization is told the line of its first buffered line
-            ('implies(len(arg_iterable) > 0, arg_start_line == lines.start_line + g_first)', 'C13')]},
+            ('implies(len(arg_iterable) > 0, arg_start_line == lines.start_line + g_first)', 'C13'),
+            # C03 tight/loose: unless a sibling marker follows (then the blank lines between the items
+            # stay and make the list loose), the item's trailing blank lines are NOT part of its content
+            ("implies(is_none(next_marker) and len(arg_iterable) >= 1, arg_iterable[len(arg_iterable) - 1] != '\\n')", ['C03', 'C02'])]},
         loops={
             0: Loop(invariant=['CURSOR_OK(lines)', 'lines._index > old(lines._index)',
                                'is_none(next_line) == (lines._index + 1 >= len(lines.lines))',
@@ -411,6 +414,9 @@ def build4(m):
                                'implies(at_loop(1, len(line_buffer)) > 0 or lines._index > at_loop(1, lines._index), '
                                'g_first == (old(lines._index) + 1 if at_loop(1, len(line_buffer)) > 0 else old(lines._index) + 2))',
                                'implies(at_loop(1, len(line_buffer)) == 0 and lines._index == at_loop(1, lines._index), len(line_buffer) == 0)',
+                               # newline_count counts exactly the trailing blank lines of the buffer
+                               "forall(lambda k: implies(len(line_buffer) - newline_count <= k, line_buffer[k] == '\\n'), 0, len(line_buffer))",
+                               "implies(len(line_buffer) > newline_count, line_buffer[len(line_buffer) - newline_count - 1] != '\\n')",
                                # LINES_NL for the nested tokenization
                                "forall(lambda i: line_buffer[i].endswith('\\n'), 0, len(line_buffer))",
                                ],
